@@ -39,6 +39,8 @@ def mk_class(vsc, fault, with_list=False, srcinfo=False):
             self.a = vsc.rand_bit_t(4)
             self.b = vsc.rand_bit_t(4)
             self.n = vsc.bit_t(4)
+            self.p = vsc.rand_bit_t(4)          # an independent constrained group (its own rand set)
+            self.q = vsc.rand_bit_t(4)
             if with_list:
                 self.l = vsc.rand_list_t(vsc.bit_t(4), 3)
             if fault == "init" and state["armed"]:
@@ -47,6 +49,7 @@ def mk_class(vsc, fault, with_list=False, srcinfo=False):
         @vsc.constraint
         def ab(self):
             self.a < self.b
+            self.p < self.q
             if fault == "constraint" and state["armed"]:
                 raise Boom()
             with vsc.if_then(self.a == 1):
@@ -74,7 +77,7 @@ def draw(o, vsc, n=3, inline=None):
         else:
             with o.randomize_with() as it:
                 inline(it)
-        out.append((int(o.a), int(o.b)) + ((tuple(o.l),) if hasattr(o, "l") else ()))
+        out.append((int(o.a), int(o.b), int(o.p), int(o.q)) + ((tuple(o.l),) if hasattr(o, "l") else ()))
     return out
 
 
@@ -82,9 +85,9 @@ def draw(o, vsc, n=3, inline=None):
           ["vsc.rand_obj._randobj.__call__", "vsc.methods.randomize_with", "vsc.model.randomizer.Randomizer.do_randomize",
            "vsc.model.randomizer.Randomizer.randomize", "vsc.model.field_array_model.FieldArrayModel.build_sum_expr"],
           lambda tier, seed: [(f, l, s) for f in ("init", "constraint", "constraint_nested", "pre", "post", "with_body", "unsat",
-                                                 "unsat_inline") for l in (False, True) for s in (False, True)],
+                                                 "unsat_inline", "unsat_dbg", "unsat_inline_dbg") for l in (False, True) for s in (False, True)],
           kind="bounded",
-          bound="8 fault positions (user __init__, constraint body, nested constraint body, pre_randomize, post_randomize, "
+          bound="10 fault positions (two with solve_fail_debug=1); two independent constraint groups; (user __init__, constraint body, nested constraint body, pre_randomize, post_randomize, "
                 "randomize_with body, unsatisfiable class constraints via a non-random field, unsatisfiable inline constraint) x "
                 "{with/without a summed list} x {srcinfo on/off}; twin comparison over 3 draws with equal random state")
 def c_fault_positions(c, fault, with_list, srcinfo):
@@ -118,13 +121,13 @@ def c_fault_positions(c, fault, with_list, srcinfo):
                 with o.randomize_with() as it:
                     it.a < 8
                     raise Boom()
-            elif fault == "unsat":
+            elif fault in ("unsat", "unsat_dbg"):
                 o.n = 5
-                with o.randomize_with() as it:
+                with o.randomize_with(solve_fail_debug=1 if fault.endswith("dbg") else 0) as it:
                     it.a == it.n
                     it.b == it.n
-            elif fault == "unsat_inline":
-                with o.randomize_with() as it:
+            elif fault in ("unsat_inline", "unsat_inline_dbg"):
+                with o.randomize_with(solve_fail_debug=1 if fault.endswith("dbg") else 0) as it:
                     it.a > it.b
             else:
                 o.randomize()
@@ -149,7 +152,7 @@ def c_fault_positions(c, fault, with_list, srcinfo):
         got = draw(o, vsc, inline=lambda it: it.a > 2)
         exp = draw(t, vsc, inline=lambda it: it.a > 2)
         c.check("... and with an inline constraint", got == exp, info="got %r twin %r" % (got, exp))
-        ok = all(x[0] < x[1] and (x[0] != 1 or x[1] == 9) for x in got)
+        ok = all(x[0] < x[1] and (x[0] != 1 or x[1] == 9) and x[2] < x[3] for x in got)
         c.check("later calls still enforce exactly the class constraints (no leftover temporary constraint)", ok, info=repr(got))
     except Exception as e:
         c.check("later calls on the object raise nothing", False, info="%s: %s" % (type(e).__name__, e))
